@@ -103,6 +103,50 @@ Fixpoint pmigrate_from (n : nat) (told tnew : ptable) (L newL i calls : Z) {stru
 Definition pmigrate (told : ptable) (L newL : Z) : outcome (ptable * ptable * Z) :=
   pmigrate_from (Z.to_nat (2 ^ L)) told pempty_table L newL 0 0.
 
+(* budgeted variants: the full getter throws at call number budget+1 (see TableO2.migrate_bucket_c) *)
+Fixpoint pmigrate_bucket_c (fuel : nat) (told tnew : ptable) (L newL i budget calls : Z) {struct fuel}
+  : outcome (ptable * ptable * Z * bool) :=
+  match fuel with
+  | O => Fuel
+  | S f =>
+    if pcnt (told i) =? 0 then Ok (told, tnew, calls, false)
+    else
+      let used := pgetter_used (told i) i L newL (pcnt (told i) - 1) in
+      if used && (budget <=? calls) then Ok (told, tnew, calls, true)
+      else match prelocate_item told tnew L newL i with
+           | Ok (told', tnew') => pmigrate_bucket_c f told' tnew' L newL i budget (if used then calls + 1 else calls)
+           | Stuck => Stuck | Fuel => Fuel | Exn => Exn
+           end
+  end.
+
+Fixpoint pmigrate_from_c (n : nat) (told tnew : ptable) (L newL i budget calls : Z) {struct n}
+  : outcome (ptable * ptable * Z * bool) :=
+  match n with
+  | O => Ok (told, tnew, calls, false)
+  | S m => match pmigrate_bucket_c 5 told tnew L newL i budget calls with
+           | Ok (told', tnew', calls', thrown) =>
+               if thrown then Ok (told', tnew', calls', true)
+               else pmigrate_from_c m told' tnew' L newL (i + 1) budget calls'
+           | Stuck => Stuck | Fuel => Fuel | Exn => Exn
+           end
+  end.
+
+Fixpoint pmigrate_gens (gens : list (ptable * Z)) (tnew : ptable) (newL budget calls : Z)
+  : outcome (list (ptable * Z) * ptable * Z * bool) :=
+  match gens with
+  | [] => Ok ([], tnew, calls, false)
+  | (told, L) :: r =>
+    match pmigrate_from_c (Z.to_nat (2 ^ L)) told tnew L newL 0 budget calls with
+    | Ok (told', tnew', calls', thrown) =>
+        if thrown then Ok ((told', L) :: r, tnew', calls', true)
+        else match pmigrate_gens r tnew' newL budget calls' with
+             | Ok (r', t2, c2, th2) => Ok (r', t2, c2, th2)
+             | Stuck => Stuck | Fuel => Fuel | Exn => Exn
+             end
+    | Stuck => Stuck | Fuel => Fuel | Exn => Exn
+    end
+  end.
+
 Fixpoint pinsert_all (t : ptable) (L : Z) (keys : list Z) : outcome ptable :=
   match keys with
   | [] => Ok t
